@@ -25,76 +25,17 @@ def run(ctx) -> None:
     ctx.analysed_fn("CompleteConsumer.consume_instruction", "CompleteConsumer.finalize",
                     "CompleteConsumer.do_match_first_occurence", "CompleteConsumer.do_match_all_findings",
                     "MatchedObserver.regex_matched")
-    I = make_interp(ctx.p)
-    sc = consumer_scenarios(I, "two") + consumer_scenarios(I, "many")
-    want_api = {"first_find": "regex.search", "all_finds": "regex.finditer"}
-    entered = set()
-    for mode in ("first_find", "all_finds"):
-        for only in (False, True):
-            for feed in ("two", "many"):
-                mine = [s for s in sc if s.mode == mode and s.only_addr == only and s.feed == feed]
-                rets = [s for s in mine if s.path.kind == "return"]
-                construct = f"CompleteConsumer[{mode},only_addr={only},listing={feed}]"
-                if not rets:
-                    ctx.fail("C11.S1.api", construct, "no-returning-path", "the consumer never finishes normally")
-                    continue
-                for s in mine:
-                    entered |= {e.func for e in s.path.events if e.kind == "enter" and e.func.startswith("CompleteConsumer")}
-                # S1
-                bad = []
-                for s in rets:
-                    calls = s.regex_calls(I)
-                    if len(calls) != 1:
-                        bad.append(f"{len(calls)} regex calls: {[c['name'] for c in calls]}")
-                        continue
-                    c = calls[0]
-                    if c["name"] != want_api[mode]:
-                        bad.append(f"calls {c['name']} (expected {want_api[mode]})")
-                    extra = set(c["kwargs"]) - ALLOWED_KW
-                    if extra or len(c["args"]) > 2:
-                        bad.append(f"extra arguments {sorted(extra)} {c['args'][2:]}")
-                    pat = c["kwargs"].get("pattern", c["args"][0] if c["args"] else None)
-                    if pat != "<REGEX>":
-                        bad.append(f"pattern={pat}")
-                ctx.check(not bad, "C11.S1.api", construct, ";".join(sorted(set(bad)))[:200],
-                          f"exactly one {want_api[mode]}(pattern=<rule regex>, string=<stream>, timeout) call")
-                # S3 stream
-                bad = []
-                for s in rets:
-                    for c in s.regex_calls(I):
-                        st = c["kwargs"].get("string", c["args"][1] if len(c["args"]) > 1 else "")
-                        want = (r"<inst1\.stringify[^>]*>[^<]*<inst2\.stringify[^>]*>[^<]*" if feed == "two" else
-                                r"JOIN\('',S'<inst\.stringify[^>]*>[^<']*' over consumed instructions\)")
-                        if not re.fullmatch(want, st or ""):
-                            bad.append(f"string={st}")
-                ctx.check(not bad, "C11.S3.stream-is-ordered-join", construct, ";".join(sorted(set(bad)))[:200],
-                          "the searched string is the in-order concatenation of every consumed record, whole")
-                # S2 forwarding
-                bad = []
-                for s in rets:
-                    labels = s.path.cond_labels()
-                    rep = s.reported(I)
-                    hit = (mode == "all_finds" and any("yields an element" in l and not l.startswith("not ") for l in labels)) or \
-                          (mode == "first_find" and any(l == "match_result" for l in labels))
-                    calls = s.regex_calls(I)
-                    src = calls[0]["name"] if calls else "?"
-                    if hit:
-                        suffix = ".group(0).split('::')[0]" if only else ".group(0)"
-                        okrep = len(rep) == 1 and rep[0].startswith(src + "(") and rep[0].endswith(
-                            ("[*]" if mode == "all_finds" else "") + suffix)
-                        if not okrep:
-                            bad.append(f"hit but reported {rep}")
-                    elif rep:
-                        bad.append(f"no hit but reported {rep}")
-                ctx.check(not bad, "C11.S2.every-hit-forwarded", construct, ";".join(sorted(set(bad)))[:240],
-                          "every element of the scan is forwarded exactly once as M.group(0) (or its address prefix), "
-                          "nothing else is forwarded")
+    from ._matchrules import scan_rules
+    entered, I = scan_rules(ctx, "C11.S1.api", "C11.S3.stream-is-ordered-join", "C11.S2.every-hit-forwarded")
     # S2b: no early exit from the forwarding loop
     for qn in sorted(entered):
         f = ctx.p.find_func(qn)
         exits = loops_with_exits(f)
         ctx.check(not exits, "C11.S2.no-early-exit", qn, ",".join(f"{k}@loop" for _, k in exits),
                   "no break/continue/return inside a loop of the matching functions", where=f.where())
+    # S5: each scan reports into a fresh result (a repeated call is a new scan)
+    from ._matchrules import repeated_operation
+    repeated_operation(ctx, "C11.S5.result-per-scan")
     # S4 observer
     for path in observer_two_reports(I):
         if path.kind != "return":
